@@ -67,7 +67,6 @@ HTTPS == <<104, 116, 116, 112, 115>>
 ScriptU(i) == CASE i = 1 -> <<SLASH>> [] i = 2 -> <<SLASH, 97, 112, 112>> [] OTHER -> <<SLASH, 97, 112, 112, SLASH>>
 \* [hm, ruledom, server, sub, scheme]
 Sd(dom, domnone, sub, subnone) == [hm |-> FALSE, dom |-> dom, server |-> EX, sub |-> sub, scheme |-> HTTP, dsub |-> WWW, domnone |-> domnone, subnone |-> subnone]
-BindX(i) == LET b == BindU(i) IN IF i >= 9 THEN b ELSE [hm |-> b.hm, dom |-> b.dom, server |-> b.server, sub |-> b.sub, scheme |-> b.scheme, dsub |-> <<>>, domnone |-> FALSE, subnone |-> FALSE]
 BindU(i) ==
   CASE i = 1 -> [hm |-> FALSE, dom |-> <<>>, server |-> EX, sub |-> <<>>, scheme |-> HTTP]
     [] i = 2 -> [hm |-> FALSE, dom |-> API, server |-> EX, sub |-> WWW, scheme |-> HTTP]
@@ -84,6 +83,7 @@ BindU(i) ==
     [] i = 12 -> Sd(<<>>, FALSE, <<>>, FALSE)
     [] i = 13 -> Sd(API, FALSE, WWW, FALSE)
     [] OTHER -> Sd(<<>>, TRUE, API, FALSE)
+BindX(i) == LET b == BindU(i) IN IF i >= 9 THEN b ELSE [hm |-> b.hm, dom |-> b.dom, server |-> b.server, sub |-> b.sub, scheme |-> b.scheme, dsub |-> <<>>, domnone |-> FALSE, subnone |-> FALSE]
 
 Lit(t) == [k |-> "lit", t |-> t, pre |-> <<>>, name |-> <<>>, conv |-> ConvU(1), post |-> <<>>, more |-> <<>>]
 Var(pre, n, c, post) == [k |-> "var", t |-> <<>>, pre |-> pre, name |-> n, conv |-> c, post |-> post, more |-> <<>>]
